@@ -312,7 +312,10 @@ def playback_values(h, target_dir, extra, env, mem_kb, timeout_s):
 
 def native_replay(binary, harness, vals):
     arg = ";".join(",".join(str(b) for b in v) for v in vals) or "-"
-    rc, out = sh([binary, harness, arg], env={"RUST_BACKTRACE": "0"}, timeout=300)
+    try:
+        rc, out = sh([binary, harness, arg], env={"RUST_BACKTRACE": "0"}, timeout=120)
+    except subprocess.TimeoutExpired:
+        return 1, "REPRODUCED: TIMEOUT native replay did not terminate within 120 s (non-termination)", ""
     last = [l for l in out.strip().splitlines() if l.strip()]
     return rc, (last[-1] if last else ""), out
 
@@ -326,6 +329,8 @@ def same_failure(check, native_last):
     if a in b or b in a:
         return True
     # Kani reports overflow / bounds panics with its own wording
+    if "unwinding assertion" in a and "TIMEOUT" in b:
+        return True
     generic = ("attempt to", "overflow", "index out of bounds", "out of range", "unwrap", "slice index", "byte index",
                "is not a char boundary", "unreachable")
     return any(g in a for g in generic) or any(g in b for g in generic)
@@ -362,6 +367,26 @@ def do_replay_file(prop, path):
     return 0
 
 
+# ----------------------------------------------------------------------------- reference validation (Layer G oracle)
+def validate_reference():
+    """Native enumeration: generated reference evaluators vs the parser pest_derive generates (validates the ORACLE only)."""
+    td = os.path.join(BUILD, "native")
+    env = dict(BASE_ENV)
+    env["RUSTFLAGS"] = "--cfg pest_typed_verif"
+    rc, out = sh(["cargo", "build", "--offline", "--target-dir", td, "--bin", "refcheck"], env=env, cwd=HARNESS)
+    if rc != 0:
+        return False, [dict(error="refcheck build failed", log=out[-1500:])]
+    rc, out = sh([os.path.join(td, "debug", "refcheck")], env={"RUST_BACKTRACE": "0"}, timeout=1200)
+    rows = []
+    for l in out.splitlines():
+        if l.startswith("{"):
+            try:
+                rows.append(json.loads(l))
+            except Exception:
+                pass
+    return rc == 0 and bool(rows), rows
+
+
 # ----------------------------------------------------------------------------- known findings
 def load_known():
     p = os.path.join(VERIF, "known_findings.json")
@@ -380,6 +405,7 @@ def main(argv):
     only = None
     jobs = None
     replay = None
+    validate_only = False
     i = 1
     while i < len(argv):
         if argv[i] == "--tier":
@@ -390,6 +416,8 @@ def main(argv):
             jobs = int(argv[i + 1]); i += 2
         elif argv[i] == "--replay":
             replay = argv[i + 1]; i += 2
+        elif argv[i] == "--validate-ref":
+            validate_only = True; i += 1
         else:
             print("unknown argument", argv[i]); return 2
     if prop not in PROPS:
@@ -403,6 +431,11 @@ def main(argv):
     fcntl.flock(lock, fcntl.LOCK_EX)
     if replay:
         return do_replay_file(prop, replay)
+    if validate_only:
+        ok, summary = validate_reference()
+        for l in summary:
+            log(json.dumps(l))
+        return 0 if ok else 2
     return run_property(prop, tier, seed, only, jobs)
 
 
@@ -413,6 +446,18 @@ def run_property(prop, tier, seed, only, jobs_override):
     if not hs:
         log("no harnesses selected for %s" % prop)
         return 2
+    refval = None
+    if any(h["module"].startswith("gen/") for h in hs) and not os.environ.get("PV_SKIP_REFCHECK"):
+        ok, refval = validate_reference()
+        log("reference-vs-pest validation: %s (%d grammars, %d strings, %d pest panics, %d mismatches)" % (
+            "ok" if ok else "FAILED", len(refval), sum(r.get("strings", 0) for r in refval),
+            sum(r.get("pest_panics", 0) for r in refval), sum(r.get("mismatches", 0) for r in refval)))
+        if not ok:
+            log("INCONCLUSIVE property=%s: the reference evaluator (oracle) disagrees with pest or could not be validated" % prop)
+            for r in refval:
+                if r.get("mismatches") or r.get("error"):
+                    log("  - " + json.dumps(r)[:600])
+            return 2
     known = load_known()
     known_by_h = {f["harness"]: f for f in known.get("findings", []) if f.get("property") == prop}
     tcfg = cfg.get(tier, {})
@@ -495,7 +540,7 @@ def run_property(prop, tier, seed, only, jobs_override):
                     why = "no verdict (timeout, out of memory or CBMC error): exit_status=%s" % r["exit_status"]
                 inconclusive.append("%s: %s" % (h["name"], why))
     wall = time.time() - t_start
-    write_evidence(prop, tier, seed, cfg, all_recs, cmds, wall, violations, known_lines, inconclusive)
+    write_evidence(prop, tier, seed, cfg, all_recs, cmds, wall, violations, known_lines, inconclusive, refval)
     for l in known_lines:
         log(l)
     if violations:
@@ -566,7 +611,7 @@ def handle_failure(prop, h, r, target_dir, extra, env, mem_kb, timeout_s, violat
     inconclusive.append("%s: counterexample for %r did not reproduce natively (harness/stub suspect)" % (h["name"], check))
 
 
-def write_evidence(prop, tier, seed, cfg, recs, cmds, wall, violations, known_lines, inconclusive):
+def write_evidence(prop, tier, seed, cfg, recs, cmds, wall, violations, known_lines, inconclusive, refval=None):
     os.makedirs(os.path.join(OUT, "evidence"), exist_ok=True)
     decided = [r for r in recs if r["status"] in ("pass", "fail")]
     nontrivial = [r for r in recs if r["status"] == "pass" and r["tier"] in ("Q", "T") and (r["covers_sat"] or 0) >= 1 and not r["covers_unsat"]]
@@ -610,6 +655,7 @@ def write_evidence(prop, tier, seed, cfg, recs, cmds, wall, violations, known_li
             solver_time_s=round(sum((r["verification_time_s"] or 0) for r in recs), 1),
             inconclusive=inconclusive,
             known_findings=known_lines,
+            reference_validation_against_pest=refval,
         ),
         assumptions=cfg.get("assumptions", []) + ["stub set %s: %s" % (s, STUB_SETS.get(s, "?")) for s in stubsets],
         wall_s=round(wall, 1),
